@@ -105,16 +105,23 @@ def padding_for(N, n):
 
 @st.composite
 def base_config(draw, nmin=16, nmax=64, max_laststep=60, min_laststep=1, multibunch=True, wake=("none", "collimator", "wall", "csr", "plates"),
-                allow_track=False):
-    """a fast, valid configuration: returns dict of options (JSON-able)"""
+                allow_track=False, big=0, via_rev=0):
+    """a fast, valid configuration: returns dict of options (JSON-able); big=k: one configuration in k uses a
+    production-size grid (the program's default is 256); via_rev=k: one configuration in k gives the number of steps through
+    StepsPerRevolution (documented to overwrite StepsPerTs, which then carries a decoy value)"""
     n = draw(st.integers(nmin, nmax))
+    if big and draw(st.integers(0, big - 1)) == 0:
+        n = draw(st.sampled_from([255, 256, 257, 264]))
     o = dict(GridSize=n)
     steps = draw(st.integers(10, 200))
     o["StepsPerTs"] = steps
     laststep = draw(st.integers(min_laststep, max_laststep))
     # rotations is a double option, converted to float in main; laststep = ceil(steps*float(rotations))
-    rot = float(np.float32((laststep - 0.5) / steps)) if draw(st.booleans()) else float(np.float32(laststep / steps))
+    half = draw(st.booleans())
+    rot = float(np.float32((laststep - 0.5) / steps)) if half else float(np.float32(laststep / steps))
     o["rotations"] = rot
+    use_rev = bool(via_rev and half and draw(st.integers(0, via_rev - 1)) == 0)
+    decoy = draw(st.integers(10, 200))
     o["InterpolationPoints"] = draw(st.sampled_from([1, 2, 3, 4, 4]))
     o["derivation"] = draw(st.sampled_from([3, 4]))
     o["FPType"] = draw(st.sampled_from([0, 1, 2, 3, 3, 3]))
@@ -172,4 +179,15 @@ def base_config(draw, nmin=16, nmax=64, max_laststep=60, min_laststep=1, multibu
         o["VacuumGap"] = -1.0
     elif w == "plates":
         o["VacuumGap"] = draw(st.sampled_from([0.03, 0.01]))
+    if use_rev:
+        d = derive(o)
+        o["StepsPerRevolution"] = float(steps * d["fs"] / d["frev"])     # steps = StepsPerRevolution*f_rev/f_s
+        o["StepsPerTs"] = decoy
+    if n >= 200:
+        # fine grids: keep the per-step decrement inside the explicit diffusion scheme's stable range (e1 < delta^2/2),
+        # otherwise the run diverges to NaN within a few steps and nothing in its output can be judged
+        d = derive(o)
+        delta = d["pq"] / (n - 1)
+        if d["e1"] > 0.35 * delta ** 2:
+            o["DampingTime"] = float(2.0 / (d["fs"] * d["steps"] * 0.35 * delta ** 2))
     return o
